@@ -29,10 +29,12 @@ def e(p, q):
     return ('fun', 'e', (p, q))
 
 
-FACTS = [e(A, A), e(A, B), e(B, A), e(B, B), e(X, X), e(X, B)]
+PL = ('fun', '.', (A, X))          # a partial list [a|X]
+FACTS = [e(A, A), e(A, B), e(B, A), e(B, B), e(X, X), e(X, B), e(PL, B), e(A, ('fun', '.', (B, Y)))]
 PATS = [e(X, Y), e(X, X), e(A, X), e(X, B), e(A, B), e(B, B), e(A, A)]
+QUERIES = [('query', p) for p in (e(X, Y), e(A, X), e(B, B))]
 SIMPLE = [('assertz', f) for f in FACTS[:4]] + [('asserta', f) for f in FACTS[:4]] + [('retractall', p) for p in PATS] + \
-         [('retract', p, None) for p in PATS] + [('retract', p, 1) for p in PATS[:4]]
+         [('retract', p, None) for p in PATS] + [('retract', p, 1) for p in PATS[:4]] + [('clear',)] + QUERIES
 
 
 def tj(x):
@@ -64,6 +66,16 @@ def run_ops(engine_kind, init, ops):
         if op[0] in ('assertz', 'asserta'):
             getattr(eng, op[0])(op[1])
             return []
+        if op[0] == 'clear':
+            eng.clear()
+            return []
+        if op[0] == 'query':
+            # a plain enumeration run to the end
+            if engine_kind == 'real':
+                et = eng.to_engine(op[1], {})
+                return [canon((_from_engine(et, {}, 0),)) for _ in eng.yp.query('e', list(et._args))]
+            from ref_interp import resolve
+            return [canon((resolve(op[1], b),)) for b in eng.solve(op[1])]
         if op[0] == 'retractall':
             r = eng.retractall(op[1])
             return [] if engine_kind == 'ref' else [x for x in r if x and x[0] == 'EXC']
@@ -113,6 +125,48 @@ def run_ops(engine_kind, init, ops):
                             break
             except Exception as ex:  # noqa
                 out.append(('EXC', type(ex).__name__, str(ex)[:80]))
+            obs.append((out, dump()))
+            continue
+        if op[0] == 'query_r':
+            pat, rpat = op[1], op[2]
+            out = []
+            g2 = None
+            try:
+                if engine_kind == 'real':
+                    et = eng.to_engine(pat, {})
+                    rt = eng.to_engine(rpat, {})
+                    first = True
+                    for _ in eng.yp.query('e', list(et._args)):
+                        out.append(canon((_from_engine(et, {}, 0),)))
+                        if first:
+                            first = False
+                            g2 = iter(eng.yp.query('retract', [rt]))
+                            try:
+                                next(g2)
+                                out.append(('inner', canon((_from_engine(rt, {}, 0),))))
+                            except StopIteration:
+                                out.append(('inner', 'none'))
+                        if len(out) > 20:
+                            break
+                else:
+                    from ref_interp import resolve
+                    first = True
+                    for b in eng.solve(pat):
+                        out.append(canon((resolve(pat, b),)))
+                        if first:
+                            first = False
+                            g2 = eng.retract(rpat)
+                            try:
+                                out.append(('inner', canon((next(g2),))))
+                            except StopIteration:
+                                out.append(('inner', 'none'))
+                        if len(out) > 20:
+                            break
+            except Exception as ex:  # noqa
+                out.append(('EXC', type(ex).__name__, str(ex)[:80]))
+            finally:
+                if g2 is not None:
+                    g2.close()
             obs.append((out, dump()))
             continue
         if op[0] == 'retract_i':
@@ -174,7 +228,8 @@ def scenarios(seed, count):
     inner_pool = [op for op in SIMPLE if not (op[0] == 'retract' and op[2] == 1)]
     out = []
     # systematic part: every pattern resumed after every single inner operation, on a few databases
-    dbs = [[e(A, A), e(A, B), e(B, B)], [e(A, B), e(A, A), e(A, B)], [e(X, X), e(A, B), e(B, B)], [e(A, A), e(B, B)], []]
+    dbs = [[e(A, A), e(A, B), e(B, B)], [e(A, B), e(A, A), e(A, B)], [e(X, X), e(A, B), e(B, B)], [e(A, A), e(B, B)], [],
+           [e(A, A), e(X, B), e(Y, Y)], [e(PL, B), e(A, B)]]
     for db in dbs:
         for p in PATS:
             out.append(dict(init=db, ops=[('retractall', p)]))
@@ -182,6 +237,12 @@ def scenarios(seed, count):
             for io in inner_pool:
                 out.append(dict(init=db, ops=[('retract_i', p, [io])]))
                 out.append(dict(init=db, ops=[('query_i', p, [io])]))
+            for q in QUERIES:
+                for f in FACTS[:2]:
+                    # a second enumeration of the same predicate starts and ends while the first is suspended, then a fact is added
+                    out.append(dict(init=db, ops=[('query_i', p, [q, ('assertz', f)])]))
+            for rp in (e(A, B), e(X, B), e(A, A)):
+                out.append(dict(init=db, ops=[('query_r', p, rp)]))
     rng.shuffle(out)
     out = out[:max(0, count * 2 // 3)]
     while len(out) < count:
@@ -189,7 +250,9 @@ def scenarios(seed, count):
         init = [rng.choice(FACTS) for _ in range(n)]
         ops = []
         for _ in range(rng.randint(1, 3)):
-            if rng.random() < 0.4:
+            if rng.random() < 0.1:
+                ops.append(('query_r', rng.choice(PATS), rng.choice(PATS)))
+            elif rng.random() < 0.4:
                 ops.append((rng.choice(['retract_i', 'query_i']), rng.choice(PATS), [rng.choice(inner_pool) for _ in range(rng.randint(1, 2))]))
             else:
                 ops.append(rng.choice(SIMPLE))
